@@ -806,6 +806,16 @@ pub const RENUM_LINES: &[&str] = &[
     "65529 GOTO 65529",
     "  550   IF A<=B THEN 100",
     "560 IF A THEN 100:REM 200",
+    "600 LIST 100:PRINT 1",
+    "610 IF A THEN DELETE 100 ELSE 200",
+    "620 DELETE 100:GOTO 200",
+    "630 LIST 100 :REM x",
+    "640 IF A THEN LIST 100 ELSE LIST 200",
+    "650 LIST:PRINT 1:GOTO 100",
+    "660 DELETE 100-:PRINT 2",
+    "670 LIST -200:GOTO 100",
+    "680 IF 0 THEN LIST 65529:GOTO 65529",
+    "690 LIST 100:LIST 200:DELETE 300:RUN 100",
     "570",
     "",
 ];
